@@ -30,7 +30,10 @@ RULE = ("random histories of 2-30 steps over {call, acked/unacked publish, subsc
         "variant), every option of every option class, progressive-result shapes x details, request ids across the 2^53 boundary, send "
         "failures x failure class x serializer, every (callback site x nested request kind), 2-4 handlers sharing one subscription id x which one is "
         "unsubscribed first (local unsubscribes, then every request kind, then the last handler's UNSUBSCRIBE); random histories also let subscribes join a "
-        "live subscription id. A case is non-trivial when at least one "
+        "live subscription id; every (request kind x success/ERROR) reply delivered from INSIDE the transport's send() mixed with deferred delivery; "
+        "subscribe(obj)/register(obj) with 2-4 decorated methods x every own-options mask x with/without options= x shuffled method names and reply "
+        "orders; EVENT/INVOCATION delivered while the UNSUBSCRIBE/UNREGISTER is in flight x 1-2 deliveries x all orders of the three outstanding "
+        "replies x final ok/ERROR (all three also in the random histories). A case is non-trivial when at least one "
         "router reply/unmatched reply was delivered and compared; distinct = hash(framework, transport config, step list).")
 ASSUMPTIONS = [
     "the scripted router only sends messages a conforming router could send, except for the final 'violate' step",
@@ -47,10 +50,18 @@ ASSUMPTIONS = [
     "several handlers on one subscription id (the scripted broker grants the id of a live subscription to a further subscribe of the same topic/match): an "
     "unsubscribe while other handlers stay attached must send nothing and spend no request id, its future completes exactly once and successfully (value "
     "not asserted); only the last handler's unsubscribe sends UNSUBSCRIBE with the next sequential id; which handler sees whose details kwarg is left to C11",
+    "synchronous replies: a wrapper around the session's real transport (vf.c04_model.SyncTransport) hands the scripted reply to session.onMessage() before "
+    "send() returns, as an in-process/loopback router transport does; the request still goes through the real transport and is read from the wire, the reply "
+    "is parsed by the transport's own serializer; an exception of onMessage propagates out of send() and the API call",
+    "object forms: every decorated method yields one request carrying its decorator's options, else the options= of the call, else (handlers) match=wildcard "
+    "for a URI pattern '<name>' and exact otherwise; the URI travels as given; entry i of the single returned future's list belongs to the i-th request issued; "
+    "decorator options that are an EMPTY options object are not generated",
+    "an EVENT (INVOCATION) for a subscription (registration) whose UNSUBSCRIBE (UNREGISTER) is in flight is what a conforming router may send: it must not fail "
+    "the transport or touch any other request; whether the detached handler/endpoint still runs is not judged (0 or 1 invocation accepted)",
     "pending-table sizes (_call_reqs ...) and txaio.resolve/reject attempt counts are hooks for leak / double-completion detection",
     "the 2^53 boundary is reached by presetting IdGenerator._next after the join",
     "not generated (grey zones): float timeouts, an unsubscribe of the last handler racing with an in-flight subscribe to the same subscription id, progressive results for calls without on_progress, "
-    "events for a subscription whose unsubscribe is in flight, reserved kwarg names of CallResult/ApplicationError, payload encryption, call cancellation, "
+    "reserved kwarg names of CallResult/ApplicationError, payload encryption, call cancellation, "
     "correlation_* options (never serialized), forward_for entries with authid None (accepted by CallOptions, refused by PublishOptions)",
 ]
 DECIDING = {
@@ -69,7 +80,13 @@ DECIDING = {
     "send_failures_oversize": 10, "replies_split_across_reads": 50, "nested_requests_verified": 100,
     "shared_subscriptions_established": 100, "local_unsubscribes_checked": 100, "ids_checked_after_local_unsubscribe": 500,
     "events_to_shared_subscription": 50,
+    "sync_replies_delivered": 200, "sync_reply_kinds": 12,
+    "object_form_calls": 100, "object_form_requests_compared": 300, "object_form_completions_compared": 200, "object_form_option_sources": 10,
+    "events_during_unsubscribe": 100, "invocations_during_unregister": 100, "outstanding_across_inflight_delivery": 300,
+    "own_reply_completions_after_inflight_delivery": 200,
 }
+
+DISTINCT_DECIDING = ("sync_reply_kinds", "object_form_option_sources")      # sizes of distinct sets, not counters
 
 SERIALIZERS = ["json", "cbor", "msgpack", "ubjson"]
 RS_MAX_EXP = 12
@@ -301,6 +318,10 @@ class Gen:
         self.nviol = 0
         self.split_replies = False
         self.local_unsubs = []
+        self.zombie_subs = {}   # pending unsubscribe label -> subscribe label: UNSUBSCRIBE in flight, EVENTs may still arrive
+        self.zombie_regs = {}
+        self.sync = False       # random histories: some replies are delivered from inside the transport's send()
+        self.objs = {}          # object-form call label -> {"left": set(member labels), "ok": [labels]}
 
     def label(self):
         self.n += 1
@@ -329,6 +350,20 @@ class Gen:
             kind = rng.choice(kinds)
             if kind == "subscribe" and self.share and self.shareable() and rng.random() < 0.45:
                 force = dict(force, share=rng.choice(self.shareable()))
+            elif kind in ("subscribe", "register") and self.sync and rng.random() < 0.18:
+                return self.issue_obj(kind)
+            if self.sync and kind != "publish_unack" and rng.random() < 0.12:
+                force = dict(force, sync=rng.choice(["ok", "ok", "error"]))
+        sync = force.pop("sync", None)
+        if sync:
+            n = self.issue(kind, **force)
+            if n in self.pending:
+                split, self.split_replies = self.split_replies, False
+                rep = self.reply(n, sync)
+                self.split_replies = split
+                self.steps.pop()
+                self.steps[-1]["sync"] = rep
+            return n
         n = self.label()
         if kind == "call":
             a, k = self.pay.request("c%d" % n, force.get("shape"))
@@ -382,14 +417,70 @@ class Gen:
             else:
                 g["closed"] = True
                 self.pending[n] = {"kind": "unsubscribe"}
+                self.zombie_subs[n] = of
         elif kind == "unregister":
             of = force.get("of") or rng.choice(self.live_regs)
             self.live_regs.remove(of)
             self.steps.append({"op": "unregister", "n": n, "of": of})
             self.pending[n] = {"kind": "unregister"}
+            self.zombie_regs[n] = of
         else:
             raise ValueError(kind)
         return n
+
+    def issue_obj(self, kind, nm=None, mask=None, call_opts="random", order=None):
+        """subscribe(obj) / register(obj): an object with ``nm`` decorated methods; bit i of ``mask`` = method i carries its own options."""
+        rng = self.rng
+        nm = nm or rng.randint(2, 4)
+        mask = rng.randrange(1 << nm) if mask is None else mask
+        if call_opts == "random":
+            call_opts = None if rng.random() < 0.5 else (
+                rng.choice([{"match": "prefix"}, {"get_retained": True}, {"details_arg": "info"}, {"match": "wildcard", "get_retained": True}])
+                if kind == "subscribe" else rng.choice([{"invoke": "first"}, {"match": "prefix", "concurrency": 4}, {"details_arg": "info"}]))
+        lab = self.label()
+        names = list("abcdefgh"[:nm])
+        if order is None:
+            rng.shuffle(names)
+        else:
+            names = [names[j] for j in order]
+        methods = []
+        self.objs[lab] = {"left": set(), "ok": []}
+        for i in range(nm):
+            n = self.label()
+            own = None
+            if (mask >> i) & 1:
+                if kind == "subscribe":
+                    own = rng.choice([{"match": "prefix"}, {"match": "prefix", "details_arg": "details", "get_retained": True}, {"get_retained": True},
+                                      {"details_arg": "info"}, {"match": "wildcard"}, {"match": "exact", "get_retained": False}])
+                else:
+                    own = rng.choice([{"invoke": "roundrobin"}, {"invoke": "random", "concurrency": 3}, {"match": "prefix"}, {"details_arg": "details"},
+                                      {"invoke": "last", "match": "prefix", "force_reregister": True}])
+            eff = own if own is not None else call_opts
+            pattern = kind == "subscribe" and rng.random() < 0.35 and (eff is None or eff.get("match") == "wildcard")
+            uri = ("com.c04.<key>.o%d" if pattern else "com.c04.obj.o%d") % n
+            methods.append({"n": n, "name": "%s_m%d" % (names[i], n), "uri": uri, "opts": own})
+            self.pending[n] = {"kind": kind, "obj": lab, "pattern": pattern}
+            self.objs[lab]["left"].add(n)
+            if kind == "subscribe":
+                self.group_of[n] = n
+                self.groups[n] = {"id": None, "live": [], "inflight": 0, "closed": False, "uri": uri, "opts": eff}
+        self.steps.append({"op": kind + "_obj", "n": lab, "opts": call_opts, "methods": methods})
+        return [m["n"] for m in methods]
+
+    def inflight_event(self, unsub=None):
+        """EVENT for a subscription whose UNSUBSCRIBE is on its way (the broker dispatched it before processing the UNSUBSCRIBE)."""
+        rng = self.rng
+        unsub = unsub or rng.choice(sorted(self.zombie_subs))
+        sub = self.zombie_subs[unsub]
+        a, k = self.pay.request("zev%d" % sub, rng.choice(["none", "one", "many", "kw", "ev"]))
+        self.steps.append({"op": "event", "sub": sub, "inflight": True, "args": a, "kwargs": k, "pubid": rng.choice([rng.randint(1, 20), rng.randint(1, 2 ** 53)])})
+
+    def inflight_invoke(self, unreg=None):
+        rng = self.rng
+        unreg = unreg or rng.choice(sorted(self.zombie_regs))
+        reg = self.zombie_regs[unreg]
+        a, k = self.pay.request("ziv%d" % reg, rng.choice(["none", "one", "many", "kw", "ev"]))
+        self.steps.append({"op": "invoke", "reg": reg, "inflight": True, "args": a, "kwargs": k, "invid": self.fresh_id(self.inv_ids)})
 
     def shareable(self):
         """Live subscriptions whose id a further subscribe may be granted."""
@@ -461,15 +552,27 @@ class Gen:
             st["cut"] = round(rng.random(), 3)
         if then is not None:
             st["then"] = self.nested(None if then is True else then)
-        elif self.split_replies and rng.random() < 0.1:
+        elif self.split_replies and rng.random() < 0.1 and p.get("obj") is None:
             st["then"] = self.nested()
         self.steps.append(st)
         if mode != "progress":
             del self.pending[label]
             self.answered.append((label, kind, mode, bool(p.get("on_progress"))))
-            if mode == "ok" and kind == "subscribe":
+            self.zombie_subs.pop(label, None)
+            self.zombie_regs.pop(label, None)
+            if p.get("obj") is not None:
+                # a request of an object-form call: usable (events, unsubscribe ...) once the call's single future has completed
+                o = self.objs[p["obj"]]
+                o["left"].discard(label)
+                if mode == "ok" and not p.get("pattern"):
+                    o["ok"].append(label)
+                if not o["left"]:
+                    (self.live_subs if kind == "subscribe" else self.live_regs).extend(o["ok"])
+                elif kind == "subscribe" and mode == "ok":
+                    pass
+            elif mode == "ok" and kind == "subscribe":
                 self.live_subs.append(label)
-            if mode == "ok" and kind == "register":
+            elif mode == "ok" and kind == "register":
                 self.live_regs.append(label)
         return st
 
@@ -524,6 +627,7 @@ def gen_history(rng):
     g = Gen(rng, cfg_random(rng))
     g.split_replies = True
     g.share = True
+    g.sync = True
     nsteps = rng.randint(2, 30)
     burst = rng.random() < 0.3
     ending = rng.choice(["drain", "drain", "violate", "violate", "leave"])
@@ -538,8 +642,16 @@ def gen_history(rng):
         if g.live_regs:
             acts += ["invoke"] * 2
         acts += ["sendfail"]
+        if g.zombie_subs:
+            acts += ["zevent"] * 3
+        if g.zombie_regs:
+            acts += ["zinvoke"] * 3
         a = rng.choice(acts)
-        if a == "issue":
+        if a == "zevent":
+            g.inflight_event()
+        elif a == "zinvoke":
+            g.inflight_invoke()
+        elif a == "issue":
             g.issue()
         elif a == "reply":
             g.reply()
@@ -933,6 +1045,124 @@ def shared_case(spec, i, cfg):
     return g.case()
 
 
+# -- enumerated: replies delivered from INSIDE the transport's send() (in-process / loopback router) ------------------------
+def sync_cases():
+    return [(k, m, v) for k in M.KINDS for m in ("ok", "error") for v in range(3)]
+
+
+def sync_case(spec, i, cfg):
+    kind, mode, v = spec
+    g = Gen(random.Random(21000 + i), cfg)
+    s0 = g.issue("subscribe", sync="ok" if v else None)
+    r0 = g.issue("register", sync="ok" if v == 2 else None)
+    for l in (r0, s0):
+        if l in g.pending:
+            g.reply(l, "ok")
+    bg = [g.issue("call", opts={"on_progress": True}), g.issue("publish"), g.issue("subscribe")]      # answered later, the normal way
+    if kind == "unsubscribe":
+        to = g.issue("unsubscribe", of=s0, sync=mode)
+    elif kind == "unregister":
+        to = g.issue("unregister", of=r0, sync=mode)
+    elif kind == "call":
+        to = g.issue("call", opts={"details": True} if v == 1 else None, sync=mode)
+    else:
+        to = g.issue(kind, sync=mode)
+    if kind == "subscribe" and mode == "ok":
+        g.event(to)
+    if kind == "register" and mode == "ok":
+        g.invoke(to)
+    # deferred and synchronous delivery mixed
+    g.reply(bg[0], "progress", "both")
+    x = g.issue("call", sync="ok")
+    y = g.issue("register" if v else "subscribe", sync="error" if v == 1 else "ok")
+    for l in reversed(bg):
+        g.reply(l, "ok" if (l + i) % 3 else "error")
+    g.issue("publish", sync="ok")
+    return g.case()
+
+
+# -- enumerated: object forms subscribe(obj) / register(obj) ---------------------------------------------------------------
+def objform_cases():
+    out = []
+    for kind in ("subscribe", "register"):
+        for nm in (2, 3, 4):
+            for mask in range(1 << nm):
+                for with_call_opts in (False, True):
+                    out.append((kind, nm, mask, with_call_opts))
+    return out
+
+
+def objform_case(spec, i, cfg):
+    kind, nm, mask, with_call_opts = spec
+    rng = random.Random(23000 + i)
+    g = Gen(rng, cfg)
+    pre = g.issue("call")
+    order = list(range(nm))
+    rng.shuffle(order)                                   # alphabetical position of the methods (the library walks them by name)
+    members = g.issue_obj(kind, nm=nm, mask=mask, call_opts="random" if with_call_opts else None, order=order)
+    if with_call_opts and g.steps[-1]["opts"] is None:
+        g.steps[-1]["opts"] = {"match": "prefix"}
+    other = g.issue("publish")
+    ms = list(members)
+    rng.shuffle(ms)
+    for j, l in enumerate(ms):
+        g.reply(l, "error" if (i + j) % 5 == 0 else "ok")
+        if j == 0:
+            g.reply(pre, "ok")
+    g.reply(other, "ok")
+    live = g.live_subs if kind == "subscribe" else g.live_regs
+    for l in list(live)[:2]:
+        (g.event if kind == "subscribe" else g.invoke)(l)
+    if live:
+        u = g.issue("unsubscribe" if kind == "subscribe" else "unregister", of=live[0])
+        g.reply(u, "ok")
+    return g.case()
+
+
+# -- enumerated: EVENT / INVOCATION arriving while the UNSUBSCRIBE / UNREGISTER is in flight, other requests outstanding ------
+def inflight_cases():
+    out = []
+    for kind in ("unsubscribe", "unregister"):
+        for nev in (1, 2):
+            for perm in itertools.permutations(range(3)):
+                for final in ("ok", "error"):
+                    out.append((kind, nev, perm, final))
+    return out
+
+
+def inflight_case(spec, i, cfg):
+    kind, nev, perm, final = spec
+    g = Gen(random.Random(25000 + i), cfg)
+    s0 = g.issue("subscribe", opts={"details": True} if i % 2 else None)
+    r0 = g.issue("register")
+    g.reply(s0, "ok")
+    g.reply(r0, "ok")
+    if i % 3 == 0:                                       # several handlers on the subscription: only the last unsubscribe goes out
+        s1 = g.issue("subscribe", share=s0)
+        g.reply(s1, "ok")
+        g.issue("unsubscribe", of=s1)
+    c = g.issue("call", opts={"on_progress": True})
+    pb = g.issue("publish")
+    (g.event(s0) if kind == "unsubscribe" else g.invoke(r0))
+    u = g.issue(kind, of=s0 if kind == "unsubscribe" else r0)
+    deliver = g.inflight_event if kind == "unsubscribe" else g.inflight_invoke
+    deliver(u)
+    pending = [c, pb, u]
+    for pos, idx in enumerate(perm):
+        l = pending[idx]
+        if l == u:
+            g.reply(u, final)
+        else:
+            if l == c:
+                g.reply(c, "progress", "both")
+            g.reply(l, "ok" if (l + i) % 4 else "error")
+            if u in g.pending and nev > 1:
+                deliver(u)
+    after = g.issue("call")
+    g.reply(after, "ok")
+    return g.case()
+
+
 def enumerated(tier):
     items = perm_cases(tier)
     vs = violation_cases()
@@ -947,6 +1177,12 @@ def enumerated(tier):
         items += [("nested", (i, j)) for i in range(len(nested_cases()))]
     for j in range(3 if tier == "quick" else 10):
         items += [("shared", (i, j)) for i in range(len(shared_cases()))]
+    for j in range(3 if tier == "quick" else 10):
+        items += [("sync", (i, j)) for i in range(len(sync_cases()))]
+    for j in range(2 if tier == "quick" else 8):
+        items += [("objform", (i, j)) for i in range(len(objform_cases()))]
+    for j in range(2 if tier == "quick" else 8):
+        items += [("inflight", (i, j)) for i in range(len(inflight_cases()))]
     items += [("idwrap", (i,)) for i in range(40 if tier == "quick" else 200)]
     items += [("sendfail", (i,)) for i in range(48 if tier == "quick" else 240)]
     return items
@@ -970,6 +1206,15 @@ def build(item):
     if fam == "nested":
         i, j = a
         return nested_case(nested_cases()[i], i + j, cfg_rot(i + 3 * j))
+    if fam == "sync":
+        i, j = a
+        return sync_case(sync_cases()[i], i + 5 * j, cfg_rot(i + 3 * j))
+    if fam == "objform":
+        i, j = a
+        return objform_case(objform_cases()[i], i + 11 * j, cfg_rot(i + 3 * j))
+    if fam == "inflight":
+        i, j = a
+        return inflight_case(inflight_cases()[i], i + 13 * j, cfg_rot(i + 3 * j))
     if fam == "shared":
         i, j = a
         return shared_case(shared_cases()[i], i + 7 * j, cfg_rot(i + 3 * j))
@@ -985,7 +1230,8 @@ def run_shard(params, R):
     fw = "tx" if txaio.using_twisted else "aio"
     part, parts, tier, seed = params["part"], params["parts"], params["tier"], params["seed"]
     for name in DECIDING:
-        R.count(name, 0)
+        if name not in DISTINCT_DECIDING:
+            R.count(name, 0)
     # enumerated families (independent of the seed)
     for idx, item in enumerate(enumerated(tier)):
         if idx % parts != part:
@@ -1024,7 +1270,10 @@ MANIFEST_ENTRY = {
              "every returned Deferred/Future completes exactly once, only by the reply bearing its id and type, with that reply's content "
              "(value / CallResult / ApplicationError); progressive results reach only their own on_progress; unmatched replies fail the "
              "transport (1002) and complete nothing; a failed send leaves no pending call/publish record; with several handlers on one subscription id a partial unsubscribe sends "
-             "nothing, spends no request id and completes once, the last one sends UNSUBSCRIBE with the next id; pending tables match the model at "
+             "nothing, spends no request id and completes once, the last one sends UNSUBSCRIBE with the next id; replies delivered from inside send() (loopback-style transport wrapper) complete "
+             "their request like deferred ones for all six kinds; subscribe(obj)/register(obj) send one request per decorated method with exactly that "
+             "method's options and complete their single future with each request's own reply; EVENTs/INVOCATIONs arriving while the UNSUBSCRIBE/"
+             "UNREGISTER is in flight leave the transport up and every other outstanding request completes with its own reply; pending tables match the model at "
              "every step. All k! reply orders for k<=6 outstanding mixed requests are enumerated. Held = no deviation on the executions in the evidence."),
     "note": ("trusts vf/c04_model.py (spec tables), vf/wamp_harness.py, the plain serializer libraries on the router side; pending-table sizes and "
              "txaio.resolve/reject attempt counts are hooks; payload encryption, call cancellation and float timeouts are not driven; "
